@@ -71,7 +71,17 @@ func EncodeEndingLineBreak(options option.ExportOptions) ([]byte, error) {
 }
 
 func encodeCSV(ctx context.Context, fp io.Writer, view *View, options option.ExportOptions) error {
-	w, err := csv.NewWriter(fp, options.LineBreak, options.Encoding)
+	// A character that the encoding cannot represent is refused only when the writer comes to it. The records
+	// before it must not have reached fp by then, so they are collected first.
+	out := fp
+	var buf bytes.Buffer
+	switch options.Encoding {
+	case text.UTF8, text.UTF8M:
+	default:
+		out = &buf
+	}
+
+	w, err := csv.NewWriter(out, options.LineBreak, options.Encoding)
 	if err != nil {
 		return NewDataEncodingError(err.Error())
 	}
@@ -113,6 +123,11 @@ func encodeCSV(ctx context.Context, fp io.Writer, view *View, options option.Exp
 	}
 	if err = w.Flush(); err != nil {
 		return NewSystemError(err.Error())
+	}
+	if out != fp {
+		if _, err = fp.Write(buf.Bytes()); err != nil {
+			return NewSystemError(err.Error())
+		}
 	}
 	return nil
 }
